@@ -2,6 +2,7 @@
 package main
 
 import (
+	"strings"
 	"fmt"
 	"math"
 	"math/big"
@@ -71,6 +72,25 @@ func paramIn(ls orb.LineString, p orb.Point, from float64, metric orb.DistanceFu
 		acc += d
 	}
 	return -1
+}
+
+// atMetric: the point at the fraction fr of the total length of ls, every segment measured by f and divided linearly.
+func atMetric(ls orb.LineString, f orb.DistanceFunc, fr float64) orb.Point {
+	total := 0.0
+	ds := make([]float64, len(ls))
+	for i := 1; i < len(ls); i++ {
+		ds[i] = f(ls[i-1], ls[i])
+		total += ds[i]
+	}
+	target := fr * total
+	for i := 1; i < len(ls); i++ {
+		if target <= ds[i] && ds[i] > 0 {
+			t := target / ds[i]
+			return orb.Point{ls[i-1][0] + t*(ls[i][0]-ls[i-1][0]), ls[i-1][1] + t*(ls[i][1]-ls[i-1][1])}
+		}
+		target -= ds[i]
+	}
+	return ls[len(ls)-1]
 }
 
 // dist is the check's own euclidean distance (the one the checks pass to the library as DistanceFunc and use in their oracles).
@@ -161,6 +181,19 @@ func main() {
 					want := at(ls, float64(k)/float64(N-1)*L)
 					if math.Hypot(p[0]-want[0], p[1]-want[1]) > 1e-9*math.Max(1, L) {
 						c.Failf("spacing", "point %d = %v, want %v (k/(N-1) of the length): %v | %s", k, p, want, out, desc(call))
+						return
+					}
+				}
+				if !df.exact && N > 1 && strings.HasPrefix(call, "Resample") {
+					// any other metric: the k-th point lies k/(N-1) of the metric length along the line, each segment
+					// measured by the metric itself and divided linearly
+					want := atMetric(ls, df.f, float64(k)/float64(N-1))
+					if k == N-1 {
+						want = ls[n-1]
+					}
+					// (two positions the metric does not tell apart - the two sides of the antimeridian - are the same place)
+					if math.Hypot(p[0]-want[0], p[1]-want[1]) > 1e-7*(1+math.Abs(want[0])+math.Abs(want[1])) && df.f(p, want) > 1e-6 {
+						c.Failf("spacing", "point %d = %v, want %v (k/(N-1) of the length in the metric %s): %v | %s", k, p, want, df.name, out, desc(call))
 						return
 					}
 				}
@@ -350,10 +383,14 @@ func main() {
 		dfi := c.Choose(len(dfs))
 		runLine(c, dfi, anti[c.Choose(len(anti))].Clone(), []int{2, 3, 4, 5, 6, 7, 8, 9})
 	})
-	r.Explore("curved-families", fmt.Sprintf("3 distance functions x 3 curves (parabola (i, i^2/10), a small longitude/latitude parabola, a 0.1-step diagonal) x 2..40 vertices x N in %v x the interval set", curveN), mc.Opts{MaxDev: -1, Split: 2}, func(c *mc.Ctx) {
+	r.Explore("curved-families", fmt.Sprintf("3 distance functions x 4 curves (parabola (i, i^2/10), a small longitude/latitude parabola, a 0.1-step diagonal, equal (2,4)-degree steps towards the pole) x 2..40 vertices x N in %v x the interval set", curveN), mc.Opts{MaxDev: -1, Split: 2}, func(c *mc.Ctx) {
 		dfi := c.Choose(len(dfs))
-		f := c.Choose(3)
+		f := c.Choose(4)
 		n := 2 + c.Choose(39)
+		if f == 3 && n > 20 {
+			c.Skip() // latitude 4t stays below 80
+			return
+		}
 		ls := make(orb.LineString, n)
 		for i := range ls {
 			t := float64(i)
@@ -364,6 +401,8 @@ func main() {
 				ls[i] = orb.Point{-122.4 + 0.001*t, 37.7 + 0.0001*t*t}
 			case 2:
 				ls[i] = orb.Point{0.1 * t, 0.3 * t}
+			case 3: // the same step over and over, towards the pole: equal in degrees, different in metres
+				ls[i] = orb.Point{2 * t, 4 * t}
 			}
 		}
 		runLine(c, dfi, ls, curveN)
